@@ -366,6 +366,40 @@ example : ∃ d, build 4 Witness.syms Witness.bg Witness.mat = some d ∧ d.scal
   obtain ⟨d, hb, hs, hsf, _⟩ := Witness.built
   exact ⟨d, hb, scaleScore_unscale Witness.hyp hb hs (by decide) (by rw [hsf]; decide)⟩
 
+/-- the stepping loop of `score` stops at once on a score that maps back to (at least) cell `x` -/
+theorem bump_stop {α : Type} [Add α] [Sub α] [Mul α] [Div α] [Scalar α] (d : Dist α) (x : Int) (fuel : Nat)
+    (s : α) (h : ¬ d.scaleScore s < x) : d.bump x fuel s = s := by
+  cases fuel with
+  | zero => rfl
+  | succ n => simp [Dist.bump, h]
+
+/-- what the loop of `score` returns, on ANY carrier (the executed `f32` one included): a score that maps
+    back to cell `x` or above, or a non-finite one — unless the model's fuel ran out, in which case every
+    step so far was finite and mapped below `x` -/
+theorem bump_spec {α : Type} [Add α] [Sub α] [Mul α] [Div α] [Scalar α] (d : Dist α) (x : Int) (fuel : Nat)
+    (s : α) : (x ≤ d.scaleScore (d.bump x fuel s) ∨ Scalar.isFiniteF32 (d.bump x fuel s) = false) ∨
+      ∀ k, k ≤ fuel → d.scaleScore (Nat.iterate Scalar.nextUpF32 k s) < x := by
+  induction fuel generalizing s with
+  | zero =>
+    by_cases h : d.scaleScore s < x
+    · right; intro k hk; have : k = 0 := by omega
+      subst this; simpa using h
+    · left; left; simp only [Dist.bump]; omega
+  | succ n ih =>
+    by_cases hf : Scalar.isFiniteF32 s = true
+    · by_cases h : d.scaleScore s < x
+      · simp only [Dist.bump, hf, h, decide_true, Bool.and_self, if_true]
+        rcases ih (Scalar.nextUpF32 s) with hl | hr
+        · exact Or.inl hl
+        · right; intro k hk
+          cases k with
+          | zero => simpa using h
+          | succ k => simpa [Function.iterate_succ] using hr k (by omega)
+      · left; left; simp only [Dist.bump, h, decide_false, Bool.and_false]; simp; omega
+    · left; right
+      have : Scalar.isFiniteF32 s = false := by simpa using hf
+      simp [Dist.bump, this]
+
 /-- Clause (5): for `p > 0` and any index `x` that `binary_search_by` may return,
     `pvalue (score p) ≤ p` (for `p ≥ 1` the index is irrelevant: `score` returns the minimum). -/
 theorem pvalue_score_le (hyp : Hyp R syms bg m) (h : build R syms bg m = some d) (hs : 0 < d.scale)
@@ -390,8 +424,9 @@ theorem pvalue_score_le (hyp : Hyp R syms bg m) (h : build R syms bg m = some d)
     rw [if_neg (lt_irrefl _), if_neg (by omega), if_neg (by omega), hsfmin]
     exact le_trans (prob_le_one hyp.bg_nonneg hyp.bg_sum _ _) hp1
   · rw [if_neg hp1, if_neg (by linarith)]
-    show d.pvalue (d.unscale (Int.ofNat x)) ≤ p
+    show d.pvalue (d.bump (Int.ofNat x) Dist.bumpFuel (d.unscale (Int.ofNat x))) ≤ p
     obtain ⟨hxle, hcase⟩ := hadm
+    rw [bump_stop d _ _ _ (by rw [scaleScore_unscale hyp h hs (by simp) (by simpa using hxle)]; omega)]
     unfold Dist.pvalue
     rw [scaleScore_unscale hyp h hs (by simp) (by simpa using hxle)]
     have hxnat : (Int.ofNat x).toNat = x := by simp
